@@ -24,11 +24,12 @@ handle calls and clears, further snapshots: `ops2`).  For every chain of names `
 (1) `s[k1]…[kn]` / `s.k1.….kn` and `m[k1]…[kn]` leave the *same state* (the same handle was
 loaded, through the same cache cell — so C12 applies to snapshot accesses) and give corresponding
 answers (`ItemRel`: the same loaded resource; a sub-snapshot where the map has a sub-map; absent
-in both; both went on to index a loaded resource);  (2) `s.get(k1)….get(kn)` and
+in both; the exception of a loader that raises, in both; both went on to index a loaded
+resource).  `F` is the loaders' script (which invocations raise), arbitrary;  (2) `s.get(k1)….get(kn)` and
 `m.get(k1)….get(kn)` give the same handle object, a sub-snapshot for a sub-map, or are both
 absent (`GetRel`). -/
-theorem C17_mirror (ops ops2 : List Op) (i : MId) (fuel : Nat) (st1 : St) (s : Nat)
-    (hs : snapshot fuel (exec {} ops) i = (st1, some s))
+theorem C17_mirror (F : HId → Nat → Bool) (ops ops2 : List Op) (i : MId) (fuel : Nat) (st1 : St) (s : Nat)
+    (hs : snapshot fuel (exec (init F) ops) i = (st1, some s))
     (h2 : ∀ op ∈ ops2, op.mutates = false)
     (ks : List String) (_hres : ∀ k ∈ ks, reserved k = false) :
     let st := exec st1 ops2
@@ -36,9 +37,9 @@ theorem C17_mirror (ops ops2 : List Op) (i : MId) (fuel : Nat) (st1 : St) (s : N
     ItemRel (sItems st s ks).2 (chainItems st i ks).2 ∧
     GetRel (sGetChain st s ks) (getChain st i ks) := by
   intro st
-  have ho : OneKind (exec {} ops) := exec_oneKind {} ops OneKind_init
-  have hk : KeysOk (exec {} ops) := exec_keysOk {} ops KeysOk_init
-  obtain ⟨_, hm⟩ := snapshot_spec fuel (exec {} ops) i ho hk st1 s hs
+  have ho : OneKind (exec (init F) ops) := exec_oneKind (init F) ops (OneKind_initF F)
+  have hk : KeysOk (exec (init F) ops) := exec_keysOk (init F) ops (KeysOk_initF F)
+  obtain ⟨_, hm⟩ := snapshot_spec fuel (exec (init F) ops) i ho hk st1 s hs
   have hst := exec_stable st1 ops2 h2
   have hm' : ∀ d, MirrorN st st.snext d s i :=
     fun d => MirrorN.stable hst (Nat.le_refl _) hst.2.1 (hm d)
